@@ -1,0 +1,76 @@
+//go:build verif
+
+// Contracts for package hashmap (comment-only; read by /verif/engine, never compiled into the package).
+
+package hashmap
+
+//@ pred Inv(m) := m != nil && m.m != nil
+//@ -- abstract view: the finite map m.m (Has / Val), Size = number of keys
+//@ pred Has(m, k) := has(m.m, k)
+//@ pred Val(m, k) := m.m[k]
+//@ pred Card(m) := len(m.m)
+
+//@ func New
+//@   modifies nothing
+//@   ensures [C01 C15 C17] fresh(result) && Inv(result) && fresh(result.m) && Card(result) == 0
+//@   ensures [C01] forall k like keyof(result.m) :: !Has(result, k)
+
+//@ func Map.Put
+//@   requires Inv(m)
+//@   modifies map(m.m)
+//@   ensures [C01 C17] Has(m, key) && Val(m, key) == value
+//@   ensures [C01] forall k like key :: k != key ==> (Has(m, k) <==> old(Has(m, k))) && Val(m, k) == old(Val(m, k))
+//@   ensures [C01 C15] Card(m) == old(Card(m)) + ite(old(Has(m, key)), 0, 1)
+
+//@ func Map.Get
+//@   requires Inv(m)
+//@   modifies nothing
+//@   ensures [C01 C17 C18] found == Has(m, key) && (found ==> value == Val(m, key)) && (!found ==> value == zero(value))
+
+//@ func Map.Remove
+//@   requires Inv(m)
+//@   modifies map(m.m)
+//@   ensures [C01 C17] !Has(m, key)
+//@   ensures [C01] forall k like key :: k != key ==> (Has(m, k) <==> old(Has(m, k))) && Val(m, k) == old(Val(m, k))
+//@   ensures [C01 C15] Card(m) == old(Card(m)) - ite(old(Has(m, key)), 1, 0)
+
+//@ func Map.Empty
+//@   requires Inv(m)
+//@   modifies nothing
+//@   ensures [C15 C17 C18] result == (Card(m) == 0)
+
+//@ func Map.Size
+//@   requires Inv(m)
+//@   modifies nothing
+//@   ensures [C01 C15 C17 C18] result == Card(m) && result >= 0
+
+//@ func Map.Keys
+//@   requires Inv(m)
+//@   modifies nothing
+//@   ensures [C01 C15 C16 C17 C18] fresh(arr(result)) && len(result) == Card(m)
+//@   ensures [C01] members: forall j :: 0 <= j && j < len(result) ==> Has(m, result[j])
+//@   ensures [C01] once: forall i, j :: 0 <= i && i < j && j < len(result) ==> result[i] != result[j]
+//@   ensures [C01] all: forall k like keyof(m.m) :: Has(m, k) ==> k in seq(result)
+//@   loop 1:
+//@     invariant count == nvisited1 && 0 <= count && count <= Card(m) && len(keys) == Card(m) && fresh(arr(keys))
+//@     invariant forall j :: 0 <= j && j < count ==> visited1[keys[j]] && Has(m, keys[j])
+//@     invariant forall i, j :: 0 <= i && i < j && j < count ==> keys[i] != keys[j]
+//@     invariant forall k like keyof(m.m) :: visited1[k] ==> (exists j :: 0 <= j && j < count && keys[j] == k)
+//@     decreases Card(m) - nvisited1
+
+//@ func Map.Values
+//@   requires Inv(m)
+//@   modifies nothing
+//@   ensures [C01 C15 C16 C17 C18] fresh(arr(result)) && len(result) == Card(m)
+//@   ensures [C01] members: forall j :: 0 <= j && j < len(result) ==> (exists k like keyof(m.m) :: Has(m, k) && Val(m, k) == result[j])
+//@   ensures [C01] all: forall k like keyof(m.m) :: Has(m, k) ==> Val(m, k) in seq(result)
+//@   loop 1:
+//@     invariant count == nvisited1 && 0 <= count && count <= Card(m) && len(values) == Card(m) && fresh(arr(values))
+//@     invariant forall j :: 0 <= j && j < count ==> (exists k like keyof(m.m) :: Has(m, k) && Val(m, k) == values[j])
+//@     invariant forall k like keyof(m.m) :: visited1[k] ==> (exists j :: 0 <= j && j < count && values[j] == Val(m, k))
+//@     decreases Card(m) - nvisited1
+
+//@ func Map.Clear
+//@   requires Inv(m)
+//@   modifies map(m.m)
+//@   ensures [C01 C15 C17] Inv(m) && Card(m) == 0 && (forall k like keyof(m.m) :: !Has(m, k))
